@@ -750,10 +750,24 @@ func (p *Peer) retryDoc(ctx context.Context, peerIDString string, docID string) 
 		if err != nil {
 			return err
 		}
+		// The receiver resolves the collection by its collection id, as sent by a first push.
+		// The block only carries the id of the schema version it was written at, which a
+		// receiver at another version of the collection can not resolve.
+		schemaVersionID := head.block.Delta.GetSchemaVersionID()
+		cols, err := clientTxn.GetCollections(ctx, client.CollectionFetchOptions{
+			VersionID:       immutable.Some(schemaVersionID),
+			IncludeInactive: immutable.Some(true),
+		})
+		if err != nil {
+			return err
+		}
+		if len(cols) == 0 {
+			return client.NewErrCollectionNotFoundForCollectionVersion(schemaVersionID)
+		}
 		updateEvent := event.Update{
 			DocID:        docID,
 			Cid:          head.cid,
-			CollectionID: head.block.Delta.GetSchemaVersionID(),
+			CollectionID: cols[0].Version().CollectionID,
 			Block:        rawblock,
 			IsRetry:      true,
 		}
